@@ -2,7 +2,7 @@
 //
 // Pattern S: ONE real `DataReaderEntity::<()>::add_reader_change` from a directly constructed symbolic
 // pre-state (the read/take half of the property -- an access makes the instance NOT_NEW and changes
-// nothing else -- is asserted by the C20 harnesses `c20_read_n1` (run with C22 as well) and `c20_take_n1`).
+// nothing else -- is asserted by the C20 harnesses `c20_read_n1` (quick, C20) and `c20_take_n1` (thorough, C20 and C22)).
 // Two obligations chain two calls because the reader keeps no per-instance set of live writers, so
 // "unregistration by ALL writers" cannot be phrased over a single constructed state.
 //
@@ -265,7 +265,7 @@ fn two_writers(same_writer: bool) {
     core::mem::forget(r);
 }
 
-// @check props=C22 tier=quick known=KF-C22-2
+// @check props=C22 tier=thorough known=KF-C22-2
 // @desc two writers: A has written the instance (stored sample, instance ALIVE), B writes it, then A unregisters it: the instance must stay ALIVE because B is still registered (expected to fail: the reader keeps no set of live writers per instance and turns NOT_ALIVE_NO_WRITERS on the first unregister)
 // @bounds 1 instance (symbolic view state and generation counts), 1 stored sample, two chained add_reader_change calls with symbolic writers and reception times; unwind 4
 // @assume trigger KF-C22-2: the unregistering writer differs from another writer that has written the instance and not unregistered it
@@ -280,7 +280,7 @@ fn c22_unregister_two_writers__known() {
     two_writers(false);
 }
 
-// @check props=C22 tier=quick
+// @check props=C22 tier=thorough
 // @desc single writer: its first write creates the instance, its unregister leads to NOT_ALIVE_NO_WRITERS (the negation of trigger KF-C22-2: every writer of the instance has unregistered)
 // @bounds empty reader, two chained add_reader_change calls (ALIVE then NOT_ALIVE_UNREGISTERED) from one symbolic writer with symbolic reception times; unwind 4
 // @assume negation of trigger KF-C22-2: the unregistering writer is the only writer of the instance
